@@ -1036,6 +1036,39 @@ func c03ViaBastion(t *testing.T, p *Plan) *Outcome {
 	return out
 }
 
+// c09ViaBastion: C09 as the caller that switches on the verdict sees it. The sequential model gives the verdict of every
+// request; the endpoint maps a verdict to a status (and, for a stale old size, to the witness's size as body). A verdict
+// that reaches the handler in a form its switch does not recognise shows as the wrong status.
+func c09ViaBastion(t *testing.T, p *Plan) *Outcome {
+	out := &Outcome{Stats: newStats()}
+	r := c10Exec(t, p)
+	if r.infra != "" {
+		out.Infra = []string{r.infra}
+		return out
+	}
+	judged := map[string]bool{"accept": true, "old_too_large": true, "stale": true, "root_mismatch": true, "bad_proof": true, "no_sig": true, "unknown_origin": true}
+	for _, v := range oracleC10(p, r) {
+		if v.Class != "status_mismatch" || v.OpIdx < 0 || v.OpIdx >= len(r.reqs) || !judged[r.reqs[v.OpIdx].Want] {
+			continue
+		}
+		v.Class, v.Sig = "verdict_mismatch", "verdict_mismatch/via_endpoint/"+strings.TrimPrefix(v.Sig, "status_mismatch/")
+		out.Viol = append(out.Viol, v)
+	}
+	for i, q := range r.reqs {
+		out.Events = append(out.Events, fmt.Sprintf("%d %s %d", i, q.Want, q.Status))
+		if judged[q.Want] {
+			st := "none"
+			if q.St.Has {
+				st = "stored"
+			}
+			out.Distinct = append(out.Distinct, fmt.Sprintf("endpoint/%s/%d/%s", q.Want, q.Status, st))
+			out.Stats.Probes["verdicts_judged_through_endpoint"]++
+		}
+	}
+	out.Stats.SimNanos = int64(r.simT)
+	return out
+}
+
 // c08ViaBastion: C08 for honest updates that arrive through the endpoint: after any prior traffic (accepted, refused,
 // pushed back), an honest update sent after two token periods of silence - when no limiter of the configured rate can be
 // short of a token, since pushed-back requests use up nothing - is answered 200.
